@@ -182,6 +182,46 @@ def presolve (tracked : List (Nat × Watch)) (firstStep : Bool) (due : List Due)
   let sorted := if firstStep then sorted.map (fun d => { d with back := 0 }) else sorted
   presolveLoop tracked ls sorted.length sorted ls t
 
+/-! ### presolve WITH rules (the rule grid inside the presolve loop) -/
+
+/-- the `while` loop of `_compute_next_timestep_and_run_presolve_controls_and_rules` with rules: `ruleAt r ls` is the link state
+after the rules triggered at rule instant `r` ran (in priority order; the tank heads are updated to `r` before they are evaluated —
+supplied by the caller: M5c `TankRun.ruleAt`, or the observed table in the correspondence).  `ri` is `_rule_iter`, `rule` the rule
+timestep.  The three branches compare the control's instant `t − backtrack` with the next rule instant `ri·rule`.
+Returns link state, accepted time, `_rule_iter`. -/
+def presolveRulesLoop (tracked : List (Nat × Watch)) (ref : Links) (rule : Int) (ruleAt : Int → Links → Links) :
+    Nat → List Due → Links → Int → Int → Links × Int × Int
+  | 0, _, ls, t, ri => (ls, t, ri)
+  | fuel + 1, due, ls, t, ri =>
+    if !due.isEmpty || decide (ri * rule ≤ t) then
+      match due with
+      | [] =>
+        let ls1 := ruleAt (ri * rule) ls
+        if changed tracked ref ls1 then (ls1, ri * rule, ri + 1)
+        else presolveRulesLoop tracked ref rule ruleAt fuel [] ls1 t (ri + 1)
+      | d :: rest =>
+        if t - d.back < ri * rule then
+          let r := runGroup d.back rest (write ls d.ctl.act)
+          if changed tracked ref r.1 then (r.1, t - d.back, ri)
+          else presolveRulesLoop tracked ref rule ruleAt fuel r.2 r.1 t ri
+        else if t - d.back == ri * rule then
+          let ls1 := ruleAt (t - d.back) ls
+          let r := runGroup d.back rest (write ls1 d.ctl.act)
+          if changed tracked ref r.1 then (r.1, t - d.back, ri + 1)
+          else presolveRulesLoop tracked ref rule ruleAt fuel r.2 r.1 t (ri + 1)
+        else
+          let ls1 := ruleAt (ri * rule) ls
+          if changed tracked ref ls1 then (ls1, ri * rule, ri + 1)
+          else presolveRulesLoop tracked ref rule ruleAt fuel (d :: rest) ls1 t (ri + 1)
+    else (ls, t, ri)
+
+/-- the presolve pass with rules; fuel: every iteration consumes a due control or advances `_rule_iter` -/
+def presolveRules (tracked : List (Nat × Watch)) (firstStep : Bool) (due : List Due) (ls : Links) (t : Int) (rule ri : Int)
+    (ruleAt : Int → Links → Links) : Links × Int × Int :=
+  let sorted := sortDue due
+  let sorted := if firstStep then sorted.map (fun d => { d with back := 0 }) else sorted
+  presolveRulesLoop tracked ls rule ruleAt (sorted.length + (t / rule - ri + 3).toNat + 2) sorted ls t ri
+
 /-! ### the C05 oracle on a reported step -/
 
 /-- a simple control evaluated on one reported step -/
